@@ -554,6 +554,10 @@ func services(
 			})
 		}
 
+		if len(services) == 0 {
+			// nothing could be converted (no usable host): there is nothing to select workloads for
+			return nil
+		}
 		dnsService := isDNSTypeService(services[0])
 		selectedWorkloads := workloadsByNamespace.Fetch(
 			ctx,
